@@ -113,6 +113,7 @@ package commonmark
 //@   ensures[prev] (result || r.pos != old(r.pos)) ==> r.prevPos == old(r.pos)
 //@   ensures[mono] r.pos >= old(r.pos) && (!result ==> r.pos <= old(r.pos) + 1)
 //@   ensures[none] len(old(r.spans)) == 0 ==> (!result && r.pos == old(r.pos))
+//@   ensures[past] (!result && len(old(r.spans)) > 0 && old(RdCut(r)) && old(r.pos) < len(r.source)) ==> r.pos == old(r.pos) + 1
 //@   ensures[keep] (!result && r.pos == old(r.pos)) ==> (r.prevPos == old(r.prevPos) && r.virtualPos == old(r.virtualPos))
 //@   ensures[inside] (len(old(r.spans)) > 0 && old(r.spans[0].span.Start) <= old(r.pos) && old(r.pos) + 1 < old(r.spans[0].span.End) && old(r.spans[0].kind) != IndentKind)
 //@       ==> (result && r.pos == old(r.pos) + 1 && len(r.spans) == len(old(r.spans)) && aliases(r.spans, old(r.spans)))
